@@ -137,7 +137,7 @@ func c12Do(ev *bexpr.Evaluator, flt *bexpr.Filter, d interface{}) c12Call {
 
 func runC12(c *eng.Ctx) {
 	scs := c12Scenarios(c.Thorough())
-	limit := 400000
+	limit := 150000
 	if c.Thorough() {
 		limit = 4000000
 	}
@@ -263,6 +263,10 @@ func runC12(c *eng.Ctx) {
 				for _, p := range s.Panics {
 					report("panic-in-thread", p, "no panic")
 				}
+				if len(reported) >= 3 {
+					// the scenario's verdict is decided; exploring the remaining schedules would only repeat it
+					vrt.StopExploring = true
+				}
 			})
 			totalExecs += execs
 			for site := range pending {
@@ -277,7 +281,7 @@ func runC12(c *eng.Ctx) {
 				c.Cap(fmt.Sprintf("scenario %q: execution limit %d hit in round %d (preemption bound %d)", sc.name, limit, rounds, sc.bound))
 				break
 			}
-			if !promotedAny || rounds > 6 {
+			if !promotedAny || rounds > 6 || vrt.StopExploring {
 				break
 			}
 		}
